@@ -63,12 +63,16 @@ Definition enforce (max : nat) (cat : list cp) : list cp :=
 
 Definition find_cp (cat : list cp) (name : N) : option cp :=
   find (fun c => N.eqb (cp_name c) name) (sort_desc cat).
+(* lookup by id: a checkpoint's id is modelled by the position of its image (unique for ever) *)
+Definition find_cp_id (cat : list cp) (k : nat) : option cp :=
+  find (fun c => Nat.eqb (cp_img c) k) (sort_desc cat).
 
 Inductive op :=
 | OPutKV (k v : N) | ODelKV (k : N)
 | OPutRel (t v : N) | ODelRel (t : N)
 | OCheckpoint (name now : N)
 | ORollback (name : N)
+| ORollbackId (k : nat)
 | OList.
 
 Definition with_kv (s : store) (kv : list (N * N)) : store := ST kv (s_rel s) (s_cat s).
@@ -93,6 +97,16 @@ Definition rollback (c : cfg) (s : state) (name : N) : option state :=
   | None => None
   end.
 
+Definition rollback_id (c : cfg) (s : state) (k : nat) : option state :=
+  match find_cp_id (s_cat (st s)) k with
+  | Some e =>
+      match nth_error (images s) (cp_img e) with
+      | Some img => Some (S8 (restore c (st s) img) (images s))
+      | None => None
+      end
+  | None => None
+  end.
+
 Definition step (c : cfg) (s : state) (o : op) : state :=
   match o with
   | OPutKV k v => S8 (with_kv (st s) (aset (s_kv (st s)) k v)) (images s)
@@ -101,6 +115,7 @@ Definition step (c : cfg) (s : state) (o : op) : state :=
   | ODelRel t => S8 (with_rel (st s) (adel (s_rel (st s)) t)) (images s)
   | OCheckpoint name now => checkpoint c s name now
   | ORollback name => match rollback c s name with Some s' => s' | None => s end
+  | ORollbackId k => match rollback_id c s k with Some s' => s' | None => s end
   | OList => s
   end.
 Definition run (c : cfg) (s : state) (ops : list op) : state := fold_left (step c) ops s.
